@@ -62,6 +62,10 @@ def boundary_programs():
     add("BININT1", ("BININT1", 255))
     add("BININT2", ("BININT2", 65535))
     add("BINFLOAT", ("BINFLOAT", -0.0))
+    add("BINFLOAT+0", ("BINFLOAT", 0.0))
+    add("BINFLOAT-both-zeros", "MARK", ("BINFLOAT", 0.0), ("BINFLOAT", -0.0), ("BINFLOAT", 0.0), "TUPLE")
+    add("BINFLOAT-both-zeros-rev", "MARK", ("BINFLOAT", -0.0), ("BINFLOAT", 0.0), "TUPLE")
+    add("BININT-true-vs-1", "MARK", ("INT", True), ("INT", 1), ("BININT1", 1), "NEWTRUE", "TUPLE")
     add("STRING", ("STRING", "plain"))
     add("STRING-esc", ("STRING", "q'\\n\"x"))
     add("UNICODE", ("UNICODE", "plain"))
@@ -96,7 +100,31 @@ def boundary_programs():
 TRAILERS = {"none": b"", "nul": b"\x00", "garbage": b"garbage.", "pickle": pickle.dumps("next", protocol=2),
             "opcode-prefix": b"\x80"}
 DELIVERIES = ("bytes", "bytearray", "BytesIO", "BytesIO@3", "file", "file-r+b", "spooled", "custom-seekable", "nonseekable",
-              "buffered-nonseekable")
+              "nonseekable-short-reads", "buffered-nonseekable")
+
+
+class RawShortReads(io.RawIOBase):
+    """Non-seekable stream that legally hands out at most 7 bytes per read (like a pipe or socket)."""
+
+    def __init__(self, data):
+        self._b = io.BytesIO(data)
+
+    def readable(self):
+        return True
+
+    def seekable(self):
+        return False
+
+    def readinto(self, b):
+        n = min(7, len(b))
+        chunk = self._b.read(n)
+        b[:len(chunk)] = chunk
+        return len(chunk)
+
+    def read(self, n=-1):
+        if n is None or n < 0:
+            return super().read(n)
+        return self._b.read(min(n, 7))
 
 
 class RawSeekable(io.RawIOBase):
@@ -181,6 +209,8 @@ def _parse(item):
             f.seek(0)
         elif delivery == "custom-seekable":
             src = stream = RawSeekable(buf)
+        elif delivery == "nonseekable-short-reads":
+            src = stream = RawShortReads(buf)
         elif delivery == "nonseekable":
             src = stream = RawNonSeekable(buf)
         else:
@@ -260,7 +290,8 @@ def _stack(item):
     out.stats.inc("stacks")
     buf = b"".join(parts)
     rp = {"engine": "E3", "stack": list(tags), "delivery": delivery, "bytes": buf}
-    src = buf if delivery == "bytes" else (io.BytesIO(buf) if delivery == "BytesIO" else RawNonSeekable(buf))
+    src = buf if delivery == "bytes" else (io.BytesIO(buf) if delivery == "BytesIO" else
+                                            (RawShortReads(buf) if delivery == "short-reads" else RawNonSeekable(buf)))
     try:
         sp = fk.StackedPickle.load(src)
     except Exception as e:  # noqa: BLE001
@@ -291,7 +322,7 @@ def check(tier):
     stacks = []
     for k in range(1, kmax + 1):
         for combo in itertools.product(sub, repeat=k):
-            for d in ("bytes", "BytesIO", "nonseekable"):
+            for d in ("bytes", "BytesIO", "nonseekable", "short-reads"):
                 stacks.append((tuple(t for t, _ in combo), [b for _, b in combo], d))
     e3.pmap(_stack, stacks, rep, chunksize=64)
     npoints = len(pk) * len(TRAILERS) * len(DELIVERIES) + len(stacks)
